@@ -367,8 +367,8 @@ def r08_3(ctx, rid="R08.3"):
                         kept = mentions(rx, lambda y: y[0] == "field" and y[2] == "regex" and len(y) > 3 and y[3] == x[1])
                         r.ob("anchoring:%s:%s-gets-its-own-kind" % (f2.key.rsplit("::", 2)[-2] + "::" + f2.name, x[1].rsplit("::", 1)[1]), (made or kept) and not wrong, f2.site,
                              "a %s is built with %s" % (x[1].rsplit("::", 1)[1], show(rx, f2)[:100]))
-        r.ob("anchoring:constructions", k >= 4, "", "%d Leaf / Node constructions inspected" % k)
-    ctx.run_rule(rid, "anchoring constants of leaf and node regexes", body, floor=11)
+        r.ob("anchoring:constructions", k >= 2, "", "%d Leaf / Node constructions inspected" % k)
+    ctx.run_rule(rid, "anchoring constants of leaf and node regexes", body, floor=9)
 
 
 def r08_4(ctx):
@@ -455,7 +455,9 @@ def r08_6(ctx):
             for p in lp.iteration_paths(sn):
                 eqs = [(a, v) for a, v in p.conds if a[0] == "call" and "PartialEq" in a[1] and len(a[2]) == 2 and ("param", 2) in a[2]
                        and any(mentions(x, lambda y: y[0] == "call" and y[1] == ITEM + "::regex") and mentions_field(x, "children", NODE) for x in a[2])]
-                if eqs and eqs[0][1] == 1 and any(e[0] == "set" and e[3][0] == "agg" and e[3][2] == "Some" and mentions(e[3], lambda y: y[0] == "call" and y[1].endswith("Iterator>::next")) for e in p.events):
+                selects = any(e[0] == "set" and e[3][0] == "agg" and e[3][2] == "Some" and mentions(e[3], lambda y: y[0] == "call" and y[1].endswith("Iterator>::next")) for e in p.events)
+                leaves = p.end[0] == "ret" or (p.end[0] in ("stop", "exit") and p.end[1] not in (lp.next_block, lp.head()))  # (`return Some(i)` of a search helper)
+                if eqs and eqs[0][1] == 1 and (selects or leaves):
                     routed = True
         r.ob("replace:node-routes-equal-pattern", routed, nf.site, "Node::insert selects the child whose whole pattern equals the inserted one (the value stored under the same id is replaced there)")
         # UniqueRegexTreeMap::insert uses the pattern as id
